@@ -618,7 +618,10 @@ impl Exec {
                             self.ctxs.insert(id);
                         }
                         self.note_head_ttl(&f);
-                        self.live.insert(id, MFrame { frame: f, evictable: false, covered: false, imported: true });
+                        // the frame under this id may already have been outside the K newest of a
+                        // head:K topic: by the letter of C08 its disappearance stays allowed
+                        let was_evictable = self.live.get(&id).map(|m| m.evictable).unwrap_or(false);
+                        self.live.insert(id, MFrame { frame: f, evictable: was_evictable, covered: false, imported: true });
                     }
                     Err(e) => self.add(finding("import.err", &["C20", "C01"], format!("import of a well-formed frame over a stored id failed: {}", e))),
                 }
